@@ -180,7 +180,7 @@ def ser_nodes(ns):
     return out
 
 
-TEXTS = ["", " ", "abc", "x y", "\n", "A&B", "1 < 2", "-", "q'", "..", "tail ", "=", "(", "%", ": ", "</b>", "&amp;"]
+TEXTS = ["", " ", "abc", "x y", "\n", "A&B", "1 < 2", "-", "q'", "..", "tail ", "=", "(", "%", ": ", "</b>", "&amp;", "/>", " >", "->", ">", ">>", "/", "i>", "f>x"]
 EXPR_NAMES = ["n1", "n2", "neg", "t", "f", "nul", "s1", "missing", "list", "obj"]
 LOOPVARS = ["item", "v", "row", "e1", "xy"]
 
